@@ -30,6 +30,10 @@ def _discriminators(f, cfg, sig):
         f["utc_extra_is_vod"] = f["vod_utc"] > 0 and f["utc_extra"] == f["vod_utc"]
         f["utc_without_value"] = ",".join(sorted({d.get("UTCTiming@schemeIdUri", "?") for d in insts.values()
                                                   if "UTCTiming@value" not in d}))
+    if f["clause"] == "X01.snr":
+        f["snr"] = c["snr"]
+        f["startnumbers"] = ",".join(sorted({v for (per, scope, cls, ask, inst, v) in facts
+                                             if scope.startswith("AS:") and cls == "SegmentTemplate@startNumber"}))
     if f["clause"] == "X01.patch":
         ids = {}
         for (per, scope, cls, ask, inst, v) in facts:
@@ -51,7 +55,7 @@ def run(tier, replay=None):
     c.assumptions = [
         "values stay within the documented / sensible ranges: tsbd 0..172800, mup 1..2e6 s, spd 0..120, start <= request instant, startrel -3600..-1, "
         "stoprel 10..3600 (the event has not stopped), ato below the shortest segment duration (inf only with $Number$ and without chunkdur), "
-        "ltgt 1..10000, patch 0..120, scte35 1..3, periods with period durations that are multiples of a uniform segment duration; "
+        "snr -1..100000, ltgt 1..10000, patch 0..120, scte35 1..3, periods with period durations that are multiples of a uniform segment duration; "
         "parameters are combined at most three at a time",
         "utc_ lists are hyphen-separated (configurl.go, strconv.go, the unit tests); urlgen.html calls the list comma-separated - not judged",
         "default UTCTiming: urlgen.html says httpiso, the code comment 'HTTP with ms precision': any single http-iso / http-xsdate element is accepted",
@@ -59,7 +63,8 @@ def run(tier, replay=None):
         "'now' of startrel_/stoprel_ may be rounded down or up to whole seconds",
         "X01.indep compares fact sets; of the differing facts only scope and class matter, the driver records at most 2 per class",
         "period structure itself (number, start, duration of Periods) is C06's subject; X01 judges continuity signalling and independence only",
-        "drm_<name> (needs a DRM configuration file on the server) is specified like eccp_ (X01.drm, Governs) but not generated",
+        "configurations with drm_<package> are requested (with and without each of their parameters) from a second server instance started "
+        "with the repository's test DRM configuration (pkg/drm/testdata/drm_config_test.json); the expected encryption scheme is read by the driver from the CPIX files",
     ]
     c.trusted = ["harness/drive/x01 projection of an MPD into facts (generic XML walk, canonical durations / dates) and the set difference of two fact sets",
                  "concretisation of value classes (harness/drive/x01/x01.go) - cross-checked by hdr.admissible against the oracle's reading of the record",
@@ -86,7 +91,7 @@ def run(tier, replay=None):
     cfg_at, sig_at = {}, {}
     cfg = sig = None
     for i, e in enumerate(events, 1):
-        if e["ev"] == "cfg":
+        if e["ev"] == "hdr":
             cfg, sig = e, None
         elif e["ev"] == "sig":
             sig = e
@@ -105,8 +110,8 @@ def run(tier, replay=None):
         _discriminators(f, cfg_at[f["line"]], sig_at[f["line"]])
         c.add_failure(f)
     # non-vacuity (machinery): every parameter generated, multi-period MPDs seen, both kinds of event judged
-    want = {"tsbd", "mup", "spd", "start", "ast", "startrel", "stoprel", "utc", "ato", "chunkdur", "ltgt", "patch", "timesubsstpp",
-            "timesubswvtt", "scte35", "annexI", "traffic", "periods", "continuous", "eccp"}
+    want = {"tsbd", "mup", "spd", "snr", "start", "ast", "startrel", "stoprel", "utc", "ato", "chunkdur", "ltgt", "patch", "timesubsstpp",
+            "timesubswvtt", "scte35", "annexI", "traffic", "periods", "continuous", "eccp", "drm"}
     missing = want - set(st.get("keys", {}))
     nsig = sum(1 for e in events if e["ev"] == "sig" and e["st"] == 200)
     nind = sum(1 for e in events if e["ev"] == "ind" and e["st"] == 200)
